@@ -190,6 +190,14 @@ func itBFS(r *core.Run, sim *itSim, masked bool, mk func() (anyIter, func() stri
 					nm, exp := sim.step(e.m, op, masked)
 					idx, valid, skip, err := itApply(it, op)
 					r.Op(1)
+					switch {
+					case err != nil:
+						r.Outcome(string(op) + ":refused")
+					case nm.pos >= n:
+						r.Outcome(string(op) + ":ok-exhausts")
+					default:
+						r.Outcome(string(op) + ":ok")
+					}
 					ps := pstr(e.path, op)
 					if exp.err {
 						if err == nil {
@@ -450,12 +458,17 @@ func c05Masked(shape []int, lay string, mbits int) (*tensor.Dense, *itSim) {
 			sim.mask = append(sim.mask, mask[c])
 		}
 	case "T":
-		rs := []int{shape[1], shape[0]}
+		rs := make([]int, len(shape))
+		perm := make([]int, len(shape))
+		for i := range shape {
+			rs[i] = shape[len(shape)-1-i]
+			perm[i] = len(shape) - 1 - i
+		}
 		t = tensor.New(tensor.WithShape(rs...), tensor.WithBacking(back, mask))
 		if err := t.T(); err != nil {
 			return nil, nil
 		}
-		v := ref.RootC(rs).Permute([]int{1, 0})
+		v := ref.RootC(rs).Permute(perm)
 		if !ref.EqInts(t.Shape(), shape) {
 			return nil, nil
 		}
@@ -465,14 +478,16 @@ func c05Masked(shape []int, lay string, mbits int) (*tensor.Dense, *itSim) {
 			sim.mask = append(sim.mask, mask[c])
 		}
 	case "Srow": // rows 1.. of a root with one extra leading row: a contiguous view with an offset mask window
-		rs := []int{shape[0] + 1, shape[1]}
+		rs := ref.CopyInts(shape)
+		rs[0]++
 		nb := ref.Prod(rs)
+		rowLen := n / shape[0]
 		back2 := make([]float64, nb)
 		mask2 := make([]bool, nb)
 		for i := range back2 {
 			back2[i] = float64(i)
-			if i >= shape[1] {
-				mask2[i] = mbits&(1<<uint(i-shape[1])) != 0
+			if i >= rowLen {
+				mask2[i] = mbits&(1<<uint(i-rowLen)) != 0
 			} else {
 				mask2[i] = i%2 == 0
 			}
@@ -489,7 +504,7 @@ func c05Masked(shape []int, lay string, mbits int) (*tensor.Dense, *itSim) {
 		ref.ForCoords(shape, func(c []int) { sim.coords = append(sim.coords, ref.CopyInts(c)) })
 		for i := 0; i < n; i++ {
 			sim.offs = append(sim.offs, i)
-			sim.mask = append(sim.mask, mask2[i+shape[1]])
+			sim.mask = append(sim.mask, mask2[i+rowLen])
 		}
 	}
 	if !t.IsMasked() {
